@@ -1568,3 +1568,42 @@ def rf128(run):
                           'memory past the section — are overwritten with the sign extension' %
                           (what, wrong[:6], sorted({SIZE[t] for t in wrong})), line=c['l'])
     return n
+
+
+# ---------------------------------------------------------------------------------------------
+# RF136: what a reference operand refers to is decided where it is created
+# ---------------------------------------------------------------------------------------------
+
+RF136_WRITERS = {
+    'MIR_new_ref_op': 'creation of the operand',
+    'simplify_op': 'declaration replaced by its definition inside one module (RF108 decides which kinds are followed)',
+}
+
+
+def rf136(run):
+    rule = 'RF136'
+    run.rule(rule, 'who may write `op.u.ref`: an instruction refers to the item its creator named; the binding of that item to an address is '
+                   'made by the link step of the module the item belongs to.  Only MIR_new_ref_op and the declaration-to-definition step '
+                   'of simplify_op assign the field (frozen table); a pass that re-points copied instructions at an item of another module '
+                   '(an inliner choosing the caller\'s import of the same name) replaces the callee\'s binding by one made at a later step')
+    n = 0
+    for u in ('mir', 'gen'):
+        tu = run.tu(u)
+        for g in tu.func_list:
+            if not g.file.startswith('/repo') or g.body is None:
+                continue
+            for x in g.walk():
+                if x['k'] == 'BinaryOperator' and x['op'] == '=':
+                    l = F.strip(x['c'][0])
+                    if l['k'] == 'MemberExpr' and l['n'] == 'ref' and F.src(l).replace(' ', '').endswith('u.ref') and 'MIR_item' in tu.type(l).s:
+                        n += 1
+                        ok = g.name in RF136_WRITERS
+                        run.functions_analysed.add((u, g.name))
+                        run.ob(rule, (g.name, x['l']), ok, {'site': '%s:%d %s' % (g.relfile(), x['l'], g.name), 'reason': RF136_WRITERS.get(g.name)})
+                        if not ok:
+                            run.violation(rule, g, 'reference operand re-pointed', '`%s` in %s changes the item an existing reference operand refers to: '
+                                          'code copied from a module linked at an earlier step would use a binding made at a later step '
+                                          '(the definition loaded last before *that* step)' % (F.src(x)[:70], g.name), line=x['l'])
+    if n < 2:
+        raise F.AnalysisBroken('RF136: only %d writes of u.ref found' % n)
+    return n
